@@ -345,3 +345,20 @@ Fixpoint insert_zpt (p : Z * Z) (l : list (Z * Z)) : list (Z * Z) :=
               else if Z.eqb (fst p) (fst a) && Z.eqb (snd p) (snd a) then l else a :: insert_zpt p t
   end.
 Definition canon_pts (l : list pt) : list (Z * Z) := fold_right insert_zpt [] (map round_pt l).
+
+(* ---------- the proposed repair of the collinear fallback (F10): return the two extreme INPUT points
+   (lexicographic minimum and maximum) instead of the corners of the bounding box ---------- *)
+Definition lex_min (a b : pt) : pt := if pt_ltb b a then b else a.
+Definition lex_max (a b : pt) : pt := if pt_ltb a b then b else a.
+Definition fallback_fixed (pts : list pt) : list pt :=
+  match pts with
+  | [] => []
+  | a :: t => let lo := fold_left lex_min t a in
+              let hi := fold_left lex_max t a in
+              if pt_eqb lo hi then [lo] else [lo; hi]
+  end.
+Definition convex_hull_w_fixed (hull : list pt -> list pt) (pts : list pt) : list pt :=
+  if Nat.ltb (length pts) 4 then pts
+  else if same_x pts then pts
+  else if collinearb pts then fallback_fixed pts
+  else hull pts.
